@@ -66,6 +66,23 @@ PLAIN = {"p", "w"}
 _registered = False
 
 
+def _preload():
+    """import every dialect + driver module once at module import, so the per-sub time budget measures evaluations only"""
+    from vf.fakedb import recording_engine
+
+    warnings.simplefilter("ignore")
+    seen = set()
+    for fam in FAMILIES:
+        for url, _f, _p in fam:
+            if url not in seen:
+                seen.add(url)
+                eng, _db = recording_engine(url)
+                eng.dispose()
+
+
+_preload()
+
+
 def _register():
     global _registered
     if not _registered:
@@ -779,6 +796,9 @@ def check_live(case, ctx):
                             raise Violation(f"C04/live-tag-mismatch/{ps}", f"sqlite3 via {ps}, set {'AB'[s]}: tg({k}, .) received {x!r} inside SQLite, bind {k} has value {exp!r}",
                                             observed=repr(state["bad"][:5]), expected=repr(exp))
                     conn.rollback()
+                if ps == "literal" and prog["shape"] != "select" and any(o is None for o in outs):
+                    # a DML set that could not be run literally leaves the table in another state: no literal comparison for this program
+                    outs = [None for _ in outs]
                 results[ps] = outs
             finally:
                 eng.dispose()
